@@ -307,7 +307,70 @@ def w_all24(arg):
     return acc.res()
 
 
+def w_named(_):
+    """addresses the module itself names: every integer below 2^24 found in the namespace of the uplink module (constants
+    computed at import included), taken as an address and as an AP OVERLAY (the address whose overlay it is, by inverting
+    the linear overlay map), with their neighbours - a shortcut keyed on such a value singles out exactly these."""
+    acc = Acc()
+    d0 = (4 << 27) | 0x0155555
+    p0 = R.parity(d0, 32)
+    img = [((R.G << i) >> 24) & 0xFFFFFF for i in range(24)]
+
+    def overlay(a):
+        top, i = 0, 0
+        while a:
+            if a & 1:
+                top ^= img[i]
+            a >>= 1
+            i += 1
+        return top
+    # invert the overlay map over GF(2)
+    rows = [(img[i], 1 << i) for i in range(24)]
+    piv = {}
+    for v, c in rows:
+        for b in sorted(piv, reverse=True):
+            if (v >> b) & 1:
+                v ^= piv[b][0]
+                c ^= piv[b][1]
+        if v:
+            piv[v.bit_length() - 1] = (v, c)
+
+    def inverse(t):
+        c = 0
+        for b in sorted(piv, reverse=True):
+            if (t >> b) & 1:
+                t ^= piv[b][0]
+                c ^= piv[b][1]
+        return c if t == 0 else None
+    named = set()
+    import inspect
+    for modl in (U, pms.common):
+        for k_, v in vars(modl).items():
+            vals = [v] if isinstance(v, int) and not isinstance(v, bool) else (list(v) if isinstance(v, (list, tuple)) and all(isinstance(x, int) for x in v) else [])
+            for x in vals:
+                if 0 <= x < (1 << 24):
+                    named.add(x)
+    from engine.util import source_words
+    named |= {x for x in source_words(["decoder/uplink.py"])["ints"] if 0 <= x < (1 << 24)}
+    cands = set()
+    for v in named:
+        for a in (v, inverse(v)):
+            if a is not None:
+                cands |= {a, a ^ 1, (a + 1) & 0xFFFFFF, (a - 1) & 0xFFFFFF}
+    f = U.uplink_icao
+    for a in sorted(cands):
+        for dd, n in ((d0, 32),):
+            msg = "%08X%06X" % (dd, p0 ^ overlay(a))
+            acc.n += 1
+            if f(msg) != "%06X" % a:
+                acc.bad("uplink_icao:wrong_address:len56:address_named_by_the_module", {"kind": "addr", "msg": msg, "addr": a})
+    acc.out.add(("named", len(cands)))
+    return acc.res()
+
+
 def w_any(t):
+    if t[0] == "named":
+        return w_named(None)
     if t[0] == "all24":
         return w_all24(t[1])
     basis()
@@ -334,6 +397,7 @@ def run(ctx):
     for ufv in (4, 5, 20, 21):
         tasks += [("fields", (ufv, list(c))) for c in chunks(range(32), 2)]
     step = 1 if ctx.thorough else 64
+    tasks.append(("named", None))
     tasks += [("all24", (lo, lo + (1 << 19), step, (ctx.seed % step) if step > 1 else 0)) for lo in range(0, 1 << 24, 1 << 19)]
     ctx.cov["real_address_sweep"] = "all 2^24 addresses" if ctx.thorough else "addresses congruent to %d mod 64 (2^18 of 2^24)" % (ctx.seed % 64)
     ctx.cov["states"] = 0
@@ -364,7 +428,7 @@ def replay(case):
     if k == "addr":
         r = call(U.uplink_icao, case["msg"])
         sg = "uplink_icao:wrong_address:len%d" % (len(case["msg"]) * 4)
-        return [] if r == ("ok", "%06X" % case["addr"]) else [(sg, case), (sg + ":address_sweep", case)]
+        return [] if r == ("ok", "%06X" % case["addr"]) else [(sg, case), (sg + ":address_sweep", case), (sg + ":address_named_by_the_module", case)]
     if k == "uf11":
         s = judge_11(case["msg"], *case["f"])
         return [(s, case)] if s else []
